@@ -1,9 +1,22 @@
 import Lox.Dec.AnalyzeProofs
+import Lox.Dec.AnalyzeFaults
+import Lox.Dec.AnalyzeDecide
 /-! # C17 — ill-formed specifications are rejected at the right place, well-formed ones never
 
 `analyze` (`Lox/Dec/Analyze.lean`) models `ParseLox` up to `Context.Analyze(spec, AllPasses)` of
 `/repo/internal`: the list of diagnostics in the order they are printed, with the early exits of the
-passes. `WellFormed` is the property's notion of a well-formed specification, written from its text. -/
+passes. `WellFormed` is the property's notion of a well-formed specification, written from its text.
+
+Scope notes.
+* `single_fault` injects by ADDING one faulty declaration at an arbitrary place (29 injectors, see
+  `Injection`). Variants that MODIFY an existing declaration (emptying the literal of a token the
+  parser uses, turning an existing rule into a second `@start`, closing a cycle through macros that
+  tokens use), name faults placed inside a mode block, and several faults at once are covered by
+  `analyze_nil_iff` (some diagnostic) and `diag_in_decl` (inside the blamed declaration) and are
+  exercised against the real front end by the harness family `analyze`.
+* "Conflicting lexer actions" (rules of two files that accept the same text in one mode) is raised
+  while the automaton of the mode is built; it is not a property of the declarations' shape and is
+  outside `analyze` (see the header of `Lox/Dec/Analyze.lean`). -/
 namespace Lox.Props.C17
 open Lox.Dec.Analyze
 
@@ -11,6 +24,16 @@ open Lox.Dec.Analyze
 specification gets at least one diagnostic, a well-formed one gets none. -/
 theorem analyze_nil_iff (s : Spec) : analyze s = [] ↔ WellFormed s :=
   analyze_nil_iff_wellFormed s
+
+/-- `WellFormed` is decidable: `wellFormedB`, written clause by clause after the predicate (a bounded
+walk search for macro cycles, no passes), decides it. The driver prints it next to the model's
+diagnostics, so every harness case also compares it with what the generator intended. -/
+theorem wellFormedB_decides (s : Spec) : wellFormedB s = true ↔ WellFormed s :=
+  Lox.Dec.Analyze.wellFormedB_iff s
+
+/-- Hence acceptance by the front end is the decision procedure's verdict. -/
+theorem analyze_nil_iff_wellFormedB (s : Spec) : analyze s = [] ↔ wellFormedB s = true :=
+  (analyze_nil_iff s).trans (wellFormedB_decides s).symm
 
 /-- Every diagnostic that blames a declaration lies inside that declaration: there is a declaration
 of the specification with the blamed identifier whose first line is not after, and whose last line
@@ -41,5 +64,203 @@ example :
 /-- `diag_in_decl` is not vacuous: a diagnostic on a continuation line of a declaration. -/
 example : (⟨.undefinedMode, 5, "Nope", some 3⟩ : Diag) ∈
     analyze ⟨[⟨[.rule (.token 3 4 "PLUS" [[.leaf .one (.lit 4 "+" 0)]] [.pushMode 5 "Nope"])]⟩]⟩ := by decide
+
+
+/-- Every single-fault variant is rejected with the expected diagnostic, which blames the injected
+declaration and sits on the expected line of it. `Injection s s' k i l` (`Lox/Dec/AnalyzeFaults.lean`)
+lists the injectors: `s'` is the well-formed `s` plus one declaration carrying one fault, placed
+between any two statements of any file, in a new file or (lexer rules) inside any mode block. -/
+theorem single_fault (s s' : Spec) (w : WellFormed s) (k : Kind) (i : Option DeclId) (l : Line)
+    (inj : Injection s s' k i l) : ∃ d ∈ analyze s', d.kind = k ∧ d.decl = i ∧ d.line = l := by
+  cases inj with
+  | badName st E₁ h hsyn ev rest hev d ds hv =>
+    exact ⟨d, fault_names h w hsyn hev (by rw [regEv_invalid hv]; exact List.mem_cons_self), rfl, rfl, rfl⟩
+  | dupName st E₁ h hsyn ev rest hev hv hdup =>
+    refine ⟨⟨.redefined, ev.line, ev.name, some ev.id⟩, fault_names h w hsyn hev (by
+      rw [regEv_redefined hv (by simpa [Ev.entry, Function.comp_def] using hdup)]; exact List.mem_cons_self), rfl, rfl, rfl⟩
+  | secondStart st E₁ h hsyn ev rest hev hv hnew hs hfirst =>
+    refine ⟨⟨.startRedefined, ev.line, ev.name, some ev.id⟩, fault_names h w hsyn hev (by
+      rw [regEv_startRedefined hv (by simpa [Ev.entry, Function.comp_def] using hnew) hs (by
+        obtain ⟨e, he, hes⟩ := hfirst
+        simp only [Env.hasStart, List.any_eq_true]
+        exact ⟨e.entry, List.mem_map.2 ⟨e, he, rfl⟩, hes⟩)]
+      exact List.mem_cons_self), rfl, rfl, rfl⟩
+  | emptyLiteral r c ln b h =>
+    exact ⟨⟨.emptyLiteral, l, "", some r.id⟩, c.placed.ins.fault_check_lex w c.fresh (by simp) c.syn
+      (LexRule.check_of_leaf h (by simp [Leaf.check])), rfl, rfl, rfl⟩
+  | reversedRange r c lf hl cl hc it hi hrev =>
+    refine ⟨⟨.reversedRange, cl.line, "", some r.id⟩, c.placed.ins.fault_check_lex w c.fresh (by simp) c.syn
+      (LexRule.check_of_leaf hl ?_), rfl, rfl, rfl⟩
+    have hmem : (⟨.reversedRange, cl.line, "", some r.id⟩ : Diag) ∈ cl.check r.id := by
+      simp only [CharClass.check, reversedItems, List.mem_map, List.mem_filter]
+      exact ⟨it, ⟨hi, by simpa using hrev⟩, trivial⟩
+    cases lf <;> simp [Leaf.classes] at hc
+    · subst hc; exact hmem
+    · rcases hc with rfl | rfl
+      · simp only [Leaf.check, List.mem_append]; exact Or.inl hmem
+      · simp only [Leaf.check, List.mem_append]; exact Or.inr hmem
+  | undefinedRef r c ln n h hu =>
+    exact ⟨⟨.undefined, l, n, some r.id⟩, c.placed.ins.fault_check_lex w c.fresh (by simp) c.syn
+      (LexRule.check_of_leaf h (by simp [Leaf.check, hu])), rfl, rfl, rfl⟩
+  | refNotMacro r c ln n h e hu hk =>
+    refine ⟨⟨.notMacro, l, n, some r.id⟩, c.placed.ins.fault_check_lex w c.fresh (by simp) c.syn
+      (LexRule.check_of_leaf h ?_), rfl, rfl, rfl⟩
+    cases e <;> simp [Leaf.check, hu, Ent.isMacro] at hk ⊢
+  | undefinedMode r c ln m h hu =>
+    exact ⟨⟨.undefinedMode, l, m, some r.id⟩, c.placed.ins.fault_check_lex w c.fresh (by simp) c.syn
+      (LexRule.check_of_action h (by simp [Action.check, hu])), rfl, rfl, rfl⟩
+  | emitUndefined r c ln n h hu =>
+    exact ⟨⟨.undefined, l, n, some r.id⟩, c.placed.ins.fault_check_lex w c.fresh (by simp) c.syn
+      (LexRule.check_of_action h (by simp [Action.check, hu])), rfl, rfl, rfl⟩
+  | emitNonToken r c ln n h e hu hk =>
+    refine ⟨⟨.notToken, l, n, some r.id⟩, c.placed.ins.fault_check_lex w c.fresh (by simp) c.syn
+      (LexRule.check_of_action h ?_), rfl, rfl, rfl⟩
+    cases e <;> simp [Action.check, hu, Ent.isToken, Ent.isExt] at hk ⊢
+  | badEscapeLex r h ln t b hl =>
+    refine ⟨⟨.badEscape, l, "", some r.id⟩, h.ins.fault_syntax w (Or.inl ⟨r, by simp, ?_⟩), rfl, rfl, rfl⟩
+    exact LexRule.syntax_of_leaf hl (by simp [Leaf.syntaxDiags, rep, List.replicate_succ])
+  | tokenDiscard id l n e acts c h1 h2 =>
+    refine ⟨⟨.tokenDiscard, l, "", some id⟩, c.placed.ins.fault_generate_lex w c.fresh c.noAlias c.syn c.checked ?_, rfl, rfl, rfl⟩
+    simp only [LexRule.generate, List.mem_append]
+    exact Or.inr (tokenDiscard_mem id l acts h1 h2)
+  | tokenEmit id l n e acts c h1 h2 =>
+    refine ⟨⟨.tokenEmit, l, "", some id⟩, c.placed.ins.fault_generate_lex w c.fresh c.noAlias c.syn c.checked ?_, rfl, rfl, rfl⟩
+    simp only [LexRule.generate, List.mem_append]
+    exact Or.inr (tokenEmit_mem id l acts h1 h2)
+  | fragTwoDiscard id l e acts c h1 h2 =>
+    refine ⟨⟨.fragTwoDiscard, l, "", some id⟩, c.placed.ins.fault_generate_lex w c.fresh c.noAlias c.syn c.checked ?_, rfl, rfl, rfl⟩
+    simp only [LexRule.generate, List.mem_append]
+    exact Or.inr (fragTwoDiscard_mem id l acts false (by simpa [b2n] using h1) h2)
+  | fragTwoEmit id l e acts c h1 h2 =>
+    refine ⟨⟨.fragTwoEmit, l, "", some id⟩, c.placed.ins.fault_generate_lex w c.fresh c.noAlias c.syn c.checked ?_, rfl, rfl, rfl⟩
+    simp only [LexRule.generate, List.mem_append]
+    exact Or.inr (fragTwoEmit_mem id l acts false (by simpa [b2n] using h1) h2)
+  | fragBoth id l e acts c h1 h2 =>
+    refine ⟨⟨.fragDiscardAndEmit, l, "", some id⟩, c.placed.ins.fault_generate_lex w c.fresh c.noAlias c.syn c.checked ?_, rfl, rfl, rfl⟩
+    simp only [LexRule.generate, List.mem_append]
+    exact Or.inr (fragBoth_mem id l acts false false (by simpa [b2n] using h1) (by simpa [b2n] using h2))
+  | macroCycle id l n e c hsh hn =>
+    refine ⟨⟨.macroCycle, l, "", some id⟩, c.placed.ins.fault_generate_lex w c.fresh c.noAlias c.syn c.checked
+      (selfCycle_mem ?_ hsh hn), rfl, rfl, rfl⟩
+    obtain ⟨_, c1, _, _⟩ := wf_clean w
+    have c1' := c.placed.ins.clean1 c1 c.fresh (by simp)
+    exact lookup_of_mem c1'.nodup (declared_of_macro_rule (c.placed.ins.mem_lex.2 (Or.inr (by simp))))
+  | parserUndefined r c ln n h hu =>
+    obtain ⟨p, hp, t, ht, hx⟩ := mem_ratoms h
+    exact ⟨⟨.undefined, l, n, some r.id⟩, c.placed.ins.fault_check_par w c.fresh c.notStart c.syn
+      (PRule.check_of_term hp ht (PAtom.check_of_atom hx (by simp [PAtom.checkSelf, PAtom.check, hu]))), rfl, rfl, rfl⟩
+  | parserNotRuleOrToken r c ln n h e hu hk =>
+    obtain ⟨p, hp, t, ht, hx⟩ := mem_ratoms h
+    refine ⟨⟨.notRuleOrToken, l, n, some r.id⟩, c.placed.ins.fault_check_par w c.fresh c.notStart c.syn
+      (PRule.check_of_term hp ht (PAtom.check_of_atom hx ?_)), rfl, rfl, rfl⟩
+    cases e <;> simp [PAtom.checkSelf, PAtom.check, hu, Ent.isToken, Ent.isRule, Ent.isExt] at hk ⊢
+  | unknownAlias r c ln t b h ht hu =>
+    obtain ⟨p, hp, tm, htm, hx⟩ := mem_ratoms h
+    have hte : t.isEmpty = false := by
+      cases hh : t.isEmpty
+      · rfl
+      · exact absurd (String.isEmpty_iff.1 hh) ht
+    exact ⟨⟨.unknownLiteral, l, t, some r.id⟩, c.placed.ins.fault_check_par w c.fresh c.notStart c.syn
+      (PRule.check_of_term hp htm (PAtom.check_of_atom hx (by simp [PAtom.checkSelf, PAtom.check, hte, hu]))), rfl, rfl, rfl⟩
+  | ambiguousAlias r c ln t b h ht hu =>
+    obtain ⟨p, hp, tm, htm, hx⟩ := mem_ratoms h
+    have hte : t.isEmpty = false := by
+      cases hh : t.isEmpty
+      · rfl
+      · exact absurd (String.isEmpty_iff.1 hh) ht
+    refine ⟨⟨.ambiguousLiteral, l, t, some r.id⟩, c.placed.ins.fault_check_par w c.fresh c.notStart c.syn
+      (PRule.check_of_term hp htm (PAtom.check_of_atom hx ?_)), rfl, rfl, rfl⟩
+    obtain ⟨k, hk⟩ : ∃ k, s'.declared.aliasCount t = k + 2 := ⟨s'.declared.aliasCount t - 2, by omega⟩
+    simp [PAtom.checkSelf, PAtom.check, hte, hk]
+  | listEntryNotSimple r c ln e sp h hk =>
+    obtain ⟨p, hp, t, ht, hx⟩ := mem_ratoms h
+    exact ⟨⟨.listEntryNotSimple, e.line, "", some r.id⟩, c.placed.ins.fault_check_par w c.fresh c.notStart c.syn
+      (PRule.check_of_term hp ht (PAtom.check_of_atom hx (by simp [PAtom.checkSelf, hk]))), rfl, rfl, rfl⟩
+  | listSepNotSimple r c ln e sp h hk hk' =>
+    obtain ⟨p, hp, t, ht, hx⟩ := mem_ratoms h
+    exact ⟨⟨.listSepNotSimple, e.line, "", some r.id⟩, c.placed.ins.fault_check_par w c.fresh c.notStart c.syn
+      (PRule.check_of_term hp ht (PAtom.check_of_atom hx (by simp [PAtom.checkSelf, hk, hk']))), rfl, rfl, rfl⟩
+  | emptyAlias r h ln b ha =>
+    obtain ⟨p, hp, t, ht, hx⟩ := mem_ratoms ha
+    refine ⟨⟨.emptyLiteral, l, "", some r.id⟩, h.ins.fault_syntax w (Or.inr ⟨r, by simp [Stmt.prules], ?_⟩), rfl, rfl, rfl⟩
+    apply PRule.syntax_of_term hp ht
+    simp only [PTerm.syntaxDiags, List.mem_append]
+    exact Or.inl (PAtom.syntax_of_atom hx (by simp [PAtom.syntaxSelf, PAtom.syntaxDiags]))
+  | badEscapePar r h ln t b ha =>
+    obtain ⟨p, hp, tm, htm, hx⟩ := mem_ratoms ha
+    refine ⟨⟨.badEscape, l, "", some r.id⟩, h.ins.fault_syntax w (Or.inr ⟨r, by simp [Stmt.prules], ?_⟩), rfl, rfl, rfl⟩
+    apply PRule.syntax_of_term hp htm
+    simp only [PTerm.syntaxDiags, List.mem_append]
+    exact Or.inl (PAtom.syntax_of_atom hx (by simp [PAtom.syntaxSelf, PAtom.syntaxDiags, rep, List.replicate_succ]))
+  | badPrecedence r h p hp q hq hb =>
+    refine ⟨⟨.badPrecedence, q.line, "", some r.id⟩, h.ins.fault_syntax w (Or.inr ⟨r, by simp [Stmt.prules], ?_⟩), rfl, rfl, rfl⟩
+    simp only [List.mem_flatMap, Prod.syntaxDiags, List.mem_append]
+    exact ⟨p, hp, Or.inr (by simp [hq, Qual.syntaxDiags, hb])⟩
+  | noStart r c hnone hck =>
+    exact ⟨⟨.startUndefined, 0, "", none⟩, fault_noStart c.placed w hnone c.fresh c.notStart c.syn hck, rfl, rfl, rfl⟩
+  | listCard r h t ht hb =>
+    obtain ⟨p, hp, ht⟩ := mem_terms.1 ht
+    refine ⟨⟨.listCard, t.atom.line, "", some r.id⟩, h.ins.fault_syntax w (Or.inr ⟨r, by simp [Stmt.prules], ?_⟩), rfl, rfl, rfl⟩
+    apply PRule.syntax_of_term hp ht
+    simp [PTerm.syntaxDiags, hb]
+
+/-- … and that diagnostic lies inside the span of the injected declaration. -/
+theorem single_fault_in_decl (s s' : Spec) (w : WellFormed s) (k : Kind) (i : DeclId) (l : Line)
+    (inj : Injection s s' k (some i) l) :
+    ∃ d ∈ analyze s', d.kind = k ∧ d.line = l ∧ ∃ D ∈ s'.decls, D.id = i ∧ D.lo ≤ d.line ∧ d.line ≤ D.hi := by
+  obtain ⟨d, hd, hk, hi, hl⟩ := single_fault s s' w k (some i) l inj
+  exact ⟨d, hd, hk, hl, diag_in_decl s' d hd i hi⟩
+
+
+/-- `single_fault` is not vacuous: a fragment with an empty literal put into a new file after the
+sample's file is an injection, … -/
+def sampleUnit : Lox.Dec.Analyze.Unit := ⟨[
+  .rule (.macro 1 2 "DIGIT" [[.leaf .one (.cls ⟨2, false, [⟨48, 57⟩], 0⟩)]]),
+  .rule (.token 2 3 "NUM" [[.leaf .plus (.ref 3 "DIGIT")]] []),
+  .rule (.token 3 4 "PLUS" [[.leaf .one (.lit 4 "+" 0)]] [.pushMode 5 "Str"]),
+  .mode 4 6 "Str" [.frag 5 7 [[.leaf .one (.dot 7)]] [.discard 7, .popMode 8]],
+  .prule ⟨6, 10, true, "s", [⟨10, [⟨.name 10 "NUM", none⟩, ⟨.alias 11 "+" 0, some .opt⟩], none⟩]⟩]⟩
+
+def badFrag : LexRule := .frag 7 1001 [[.leaf .one (.lit 1001 "x" 0), .leaf .star (.lit 1002 "" 0)]] [.discard 1003]
+
+example : Injection ⟨[sampleUnit]⟩ ⟨[sampleUnit, ⟨[.rule badFrag]⟩]⟩ .emptyLiteral (some 7) 1002 :=
+  .emptyLiteral badFrag
+    { placed := Or.inl (AddedStmt.newUnit [sampleUnit] [])
+      fresh := ⟨by simp [badFrag, LexRule.events], by simp [badFrag, LexRule.events], by simp [badFrag, LexRule.events],
+        by simp [badFrag, LexRule.events]⟩
+      syn := by decide }
+    1002 0 (by decide)
+
+/-- A name fault: a macro named like the token `NUM`, put between the mode block and the parser rule
+of the sample's file (the registrations before that place include `NUM`). -/
+def dupMacro : Stmt := .rule (.macro 8 9 "NUM" [[.leaf .one (.lit 9 "n" 0)]])
+
+example : Injection ⟨[sampleUnit]⟩
+    ⟨[⟨sampleUnit.stmts.take 4 ++ dupMacro :: sampleUnit.stmts.drop 4⟩]⟩ .redefined (some 8) 9 :=
+  .dupName dupMacro _ (AddedStmtAt.inUnit [] [] (sampleUnit.stmts.take 4) (sampleUnit.stmts.drop 4))
+    ⟨by decide, by simp [dupMacro, Stmt.prules]⟩ ⟨8, 9, "NUM", .macro 8 9 [[.leaf .one (.lit 9 "n" 0)]], .lexical⟩ [] rfl
+    (by decide) (by decide)
+
+/-- A fault of the last pass: a token with `@discard`, inside the mode block. -/
+def discardedToken : LexRule := .token 9 8 "WS" [[.leaf .plus (.lit 8 " " 0)]] [.discard 8]
+
+example : Injection ⟨[sampleUnit]⟩
+    ⟨[⟨sampleUnit.stmts.take 3 ++
+        .mode 4 6 "Str" ([.frag 5 7 [[.leaf .one (.dot 7)]] [.discard 7, .popMode 8]] ++ discardedToken :: []) ::
+        sampleUnit.stmts.drop 4⟩]⟩ .tokenDiscard (some 9) 8 :=
+  .tokenDiscard 9 8 "WS" _ _
+    { placed := Or.inr (AddedInMode.mk [] [] (sampleUnit.stmts.take 3) (sampleUnit.stmts.drop 4) 4 6 "Str"
+        [.frag 5 7 [[.leaf .one (.dot 7)]] [.discard 7, .popMode 8]] [])
+      fresh := ⟨by decide, by decide, by decide, by decide⟩
+      syn := by decide
+      noAlias := by
+        intro ev hev t
+        simp only [LexRule.events, List.mem_singleton] at hev
+        subst hev; rfl
+      checked := by decide }
+    (by decide) (by decide)
+
+/-- … and the model indeed answers with that diagnostic only. -/
+example : analyze ⟨[sampleUnit, ⟨[.rule badFrag]⟩]⟩ = [⟨.emptyLiteral, 1002, "", some 7⟩] := by decide
 
 end Lox.Props.C17
